@@ -18,10 +18,10 @@ YOUR JOB: write a realistic change (a plausible bug a developer could introduce 
   (a) the module still compiles (go build ./... && go vet-free `go test -vet=off -count=1 -run '^$' ./...`), and
   (b) the existing test suite still passes: run `go test -vet=off -count=1 ./...` in {wt} (takes a few minutes; at least all packages under the directories of the files you touch and their importers must pass — report exactly what you ran and the result), and
   (c) the breakage needs something SPECIFIC to manifest — a particular interleaving, a crash or fault at a particular point, a multi-step sequence of operations, an unusual input shape, or two cooperating sites that each look fine alone — NOT something ordinary use would expose at once. Subtle beats blatant.
-Then write a DEMONSTRATION: a Go test file (placed in the appropriate package directory of the worktree, name it zz_demo_test.go) or a small Go program under {wt}/cmd/zzdemo, that exercises the real library code and FAILS with your change applied and PASSES on the unchanged code. Verify both directions yourself (git stash / git stash pop, or git diff > patch; git checkout; run; git apply patch; run).
+Then write a DEMONSTRATION: a Go test file (placed in the appropriate package directory of the worktree, name it zz_demo_test.go) or a small Go program under {wt}/cmd/zzdemo, that exercises the real library code and FAILS with your change applied and PASSES on the unchanged code. Verify both directions yourself (git diff > patch; git apply -R patch; run; git apply patch; run). NEVER use `git stash`: the stash is shared between all worktrees of the repository and other people work in sibling worktrees.
 
 Deliverables in {wt}-out/:
   patch.diff   — `git diff` of the non-test change only (must apply to the pristine tree with `git apply`)
   demo/        — the demonstration file(s) with their path relative to the repo root preserved (e.g. demo/pkg/apply/filter/zz_demo_test.go)
   README.md    — which behaviour of the property breaks, what exactly is needed for it to manifest, the exact commands you ran (suite + demo, with and without the change) and their results
-Leave the worktree with the change applied. Your final message: a 5-10 line summary (what you changed, why the suite misses it, how the demo shows it).""")
+{"VARIETY: several people are doing this exercise for the same property. To avoid everyone picking the same spot, target a clause of the statement OTHER than its first / most obvious one, and a code site other than the most central function (glue code, option handling, an error path, a rarely-taken branch, a helper in another package that the mechanism relies on). " if tag != "a" else ""}Leave the worktree with the change applied. Your final message: a 5-10 line summary (what you changed, why the suite misses it, how the demo shows it).""")
